@@ -295,6 +295,8 @@ func zzC06_two_pending() {
 	symSetNow(time.Unix(0, now))
 	pay := symBytes("payload", 3)
 	withBodyFirst := symChoose("request-with-payload-first", 2) == 1
+	// the caller may have read the body (logging, a previous attempt) before submitting the request
+	bodyAlreadyRead := symChoose("body-reader-at-end", 2) == 1
 	mk := func(body bool, tok byte) {
 		req := pool.NewMessage(context.Background())
 		req.SetToken(message.Token{tok})
@@ -303,6 +305,10 @@ func zzC06_two_pending() {
 			req.SetCode(codes.POST)
 			req.SetContentFormat(message.AppOctets)
 			req.SetBody(bytesReader(pay))
+			if bodyAlreadyRead {
+				_, _ = req.Body().Seek(0, 2) // io.SeekEnd
+				symCover("body-reader-at-end")
+			}
 		} else {
 			req.SetCode(codes.GET)
 		}
@@ -319,6 +325,11 @@ func zzC06_two_pending() {
 	symSetNow(time.Unix(0, now))
 	cc.CheckExpirations(time.Unix(0, now))
 	symAssert(len(s.written) == 4, "both unacknowledged requests are retransmitted in the tick in which they fall due")
+	for _, w := range first {
+		if w.code == codes.POST {
+			symAssert(bytes.Equal(w.payload, pay), "the first copy carries the whole payload wherever the body reader stood")
+		}
+	}
 	symCover("both-retransmitted")
 	for _, w := range s.written[2:] {
 		var orig *zzWritten
